@@ -47,7 +47,15 @@ def remap_curie_prefixes(converter: Converter, remapping: Mapping[str, str]) -> 
     """
     ordering = _order_curie_remapping(converter, remapping)
     intersection = set(remapping).intersection(remapping.values())
-    records = {r.prefix: r for r in converter.records}
+    # work on copies of the records, so the given converter is not modified
+    copies = [r.model_copy(deep=True) for r in converter.records]
+    records = {r.prefix: r for r in copies}
+
+    def _get_copy(prefix: str) -> Record | None:
+        for r in copies:
+            if r.prefix == prefix or prefix in r.prefix_synonyms:
+                return r
+        return None
 
     modified_records = []
     for old, new_prefix in ordering:
@@ -62,8 +70,8 @@ def remap_curie_prefixes(converter: Converter, remapping: Mapping[str, str]) -> 
             continue
 
         record = records.pop(_old)
-        new_record = converter.get_record(new_prefix)
-        if new_record is not None and record != new_record:
+        new_record = _get_copy(new_prefix)
+        if new_record is not None and new_record is not record:
             logger.debug(
                 "Remapping %s->%s would create a clash because of the existing record %r. Skipping.",
                 old,
@@ -103,6 +111,7 @@ def remap_uri_prefixes(converter: Converter, remapping: Mapping[str, str]) -> Co
 
     records = []
     for record in converter.records:
+        record = record.model_copy(deep=True)  # don't modify the given converter
         new_uri_prefix = _get_uri_preferred_or_synonym(record, remapping)
         if new_uri_prefix is None:
             pass  # nothing to upgrade
@@ -134,6 +143,7 @@ def rewire(converter: Converter, rewiring: Mapping[str, str]) -> Converter:
     """
     records = []
     for record in converter.records:
+        record = record.model_copy(deep=True)  # don't modify the given converter
         new_uri_prefix = _get_curie_preferred_or_synonym(record, rewiring)
         if new_uri_prefix is None:
             pass  # nothing to upgrade
